@@ -150,6 +150,7 @@ func (c *control) readDir() {
 		case 'v':
 			var p any
 			if 0 <= c.argPos {
+				c.needArg()
 				p = c.args[c.argPos]
 				c.argPos++
 			}
@@ -307,6 +308,7 @@ func (c *control) dirMoney(colon, at bool, params []any) {
 	padchar := c.getCharParam(3, params, []byte{' '})
 	var val float64
 	if 0 <= c.argPos {
+		c.needArg()
 		arg := c.args[c.argPos]
 		c.argPos++
 		if r, ok := arg.(slip.Real); ok {
@@ -520,6 +522,7 @@ func (c *control) dirCall(colon, at bool, params []any) {
 	args := make(slip.List, 4)
 	args[0] = &slip.OutputStream{Writer: c}
 	if 0 <= c.argPos {
+		c.needArg()
 		args[1] = c.args[c.argPos]
 		c.argPos++
 	}
@@ -714,6 +717,7 @@ func (c *control) dirEval(colon, at bool, params []any) {
 func (c *control) dirProc(colon, at bool, params []any) {
 	var ctrl []byte
 	if c.argPos < len(c.args) {
+		c.needArg()
 		ss, ok := c.args[c.argPos].(slip.String)
 		if !ok {
 			slip.ErrorPanic(c.scope, 0, "recursive processing directive expected a control string at %d of %q", c.pos, c.str)
@@ -733,6 +737,7 @@ func (c *control) dirProc(colon, at bool, params []any) {
 		var args slip.List
 		if c.argPos < len(c.args) {
 			var ok bool
+			c.needArg()
 			if args, ok = c.args[c.argPos].(slip.List); !ok {
 				slip.ErrorPanic(c.scope, 0, "recursive processing directive expected an argument list at %d of %q", c.pos, c.str)
 			}
@@ -757,6 +762,7 @@ func (c *control) dirA(colon, at bool, params []any) {
 	if !colon && !at && len(params) == 0 { // bare ~A, the most common case
 		var arg slip.Object
 		if 0 <= c.argPos {
+			c.needArg()
 			arg = c.args[c.argPos]
 			c.argPos++
 		}
@@ -782,6 +788,7 @@ func (c *control) dirC(colon, at bool, params []any) {
 		ok  bool
 	)
 	if 0 <= c.argPos {
+		c.needArg()
 		arg, ok = c.args[c.argPos].(slip.Character)
 		c.argPos++
 	}
@@ -814,6 +821,7 @@ func (c *control) dirInt(colon, at bool, params []any, base int) {
 		neg bool
 	)
 	if 0 <= c.argPos {
+		c.needArg()
 		arg = c.args[c.argPos]
 		c.argPos++
 	}
@@ -878,6 +886,7 @@ func (c *control) dirInt(colon, at bool, params []any, base int) {
 func (c *control) getEFGarg(ff *floatFormatter) {
 	var arg slip.Object
 	if 0 <= c.argPos {
+		c.needArg()
 		arg = c.args[c.argPos]
 		c.argPos++
 	}
@@ -1160,6 +1169,7 @@ func (c *control) dirR(colon, at bool, params []any) {
 		words  []string
 		sep    string
 	)
+	c.needArg()
 	arg := c.args[c.argPos]
 	c.argPos++
 	switch ta := arg.(type) {
@@ -1284,6 +1294,7 @@ func (c *control) dirAS(colon, at bool, params []any, p *slip.Printer) {
 		pad []byte
 	)
 	if 0 <= c.argPos {
+		c.needArg()
 		arg = c.args[c.argPos]
 		c.argPos++
 	}
@@ -1388,6 +1399,7 @@ func (c *control) dirT(colon, at bool, params []any) {
 func (c *control) dirW(colon, at bool, params []any) {
 	var arg slip.Object
 	if 0 <= c.argPos {
+		c.needArg()
 		arg = c.args[c.argPos]
 		c.argPos++
 	}
@@ -1439,6 +1451,7 @@ func (c *control) dirCond(colon, at bool, params []any) {
 	var arg slip.Object
 	if colon || at || n < 0 {
 		if c.argPos < len(c.args) {
+			c.needArg()
 			arg = c.args[c.argPos]
 			c.argPos++
 		}
@@ -1574,6 +1587,7 @@ func (c *control) dirIter(colon, at bool, params []any) {
 			}
 			c2.args = slip.List{}
 			if c.argPos < len(c.args) {
+				c.needArg()
 				c2.args = c.objAsList(c.args[c.argPos], "iteration directive argument")
 				c.argPos++
 			}
@@ -1589,6 +1603,7 @@ func (c *control) dirIter(colon, at bool, params []any) {
 		// element being consumed by one iteration.
 		var argList slip.List
 		if c.argPos < len(c.args) {
+			c.needArg()
 			argList = c.objAsList(c.args[c.argPos], "iteration directive argument")
 			c.argPos++
 		}
@@ -1625,6 +1640,7 @@ func (c *control) dirIter(colon, at bool, params []any) {
 		// for each iteration.
 		c2.args = nil
 		if c.argPos < len(c.args) {
+			c.needArg()
 			c2.args = c.objAsList(c.args[c.argPos], "iteration directive argument")
 			c.argPos++
 		}
@@ -1706,6 +1722,14 @@ func (c *control) objAsList(obj slip.Object, loc string) (list slip.List) {
 		slip.TypePanic(c.scope, 0, loc, obj, "list")
 	}
 	return
+}
+
+// needArg raises an error when the directive being processed needs an argument
+// and none is left.
+func (c *control) needArg() {
+	if c.argPos < 0 || len(c.args) <= c.argPos {
+		slip.ErrorPanic(c.scope, 0, "missing argument for directive at %d of %q", c.pos, c.str)
+	}
 }
 
 func (c *control) invalidDir(buf []byte, pos int) {
